@@ -100,5 +100,7 @@ def run(ctx, keep=lambda f: not f.startswith("derivative")):
                                       "function derivatives (and derivatives of powers whose exponent depends on the variable) are compared with a Richardson finite difference of the evaluator's own values (1e-6)",
                                       "getCxxFormula: the returned string is compiled as the body of a C++ function of two doubles and evaluated at (2, 3) for every "
                                       "conditional case and one arithmetic tree out of three (all in thorough); functions are not covered",
-                                      "resolveDependencies, parameter rewriting and physical constants are not covered",
+                                      "resolveDependencies and createFunctionByChangingParametersIntoVariables: formulas over two parameters (one defined from the other) and an external "
+                                      "function, 1116 cases; the value must be preserved (for the rewriting: with the new variable set to the parameter's value; other values are "
+                                      "not specified and not judged); physical constants are not covered",
                                       "'!' is only generated in front of a parenthesised logical expression; '!=' is not part of the language (refused)"])
